@@ -206,6 +206,9 @@ type UpdSpec struct {
 	MPU   []NL     `json:"mpu,omitempty"` // MP_UNREACH_NLRI
 	MPUv4 bool     `json:"mpu_v4,omitempty"`
 	Attr  AttrSpec `json:"attr"`
+	// Order lists attribute type codes in the order they are encoded (RFC 4271 allows any order);
+	// attributes not listed follow in ascending type order. Empty: ascending type order.
+	Order []uint8 `json:"order,omitempty"`
 }
 
 // NLRIs converts to wire NLRI.
@@ -282,7 +285,82 @@ func (u UpdSpec) Typed() (full *wire.PathAttrs, ref *wire.PathAttrs) {
 // Build returns the wire UPDATE and the typed attributes without MP attributes (the reference content).
 func (u UpdSpec) Build(o wire.Options) (*wire.Update, *wire.PathAttrs) {
 	pa, ref := u.Typed()
-	return &wire.Update{Withdrawn: NLRIs(u.Wd), Attrs: pa.Build(o), NLRI: NLRIs(u.Ann)}, ref
+	return &wire.Update{Withdrawn: NLRIs(u.Wd), Attrs: Reorder(pa.Build(o), u.Order), NLRI: NLRIs(u.Ann)}, ref
+}
+
+// Reorder returns attrs with the type codes listed in order first (in that order) and the rest behind
+// them in their given order.
+func Reorder(attrs []wire.Attr, order []uint8) []wire.Attr {
+	if len(order) == 0 {
+		return attrs
+	}
+	out := make([]wire.Attr, 0, len(attrs))
+	taken := make([]bool, len(attrs))
+	for _, t := range order {
+		for i, a := range attrs {
+			if !taken[i] && a.Type == t {
+				out, taken[i] = append(out, a), true
+			}
+		}
+	}
+	for i, a := range attrs {
+		if !taken[i] {
+			out = append(out, a)
+		}
+	}
+	return out
+}
+
+// AttrTypes lists the type codes of the attributes u is encoded with, ascending.
+func (u UpdSpec) AttrTypes() []uint8 {
+	pa, _ := u.Typed()
+	var out []uint8
+	for _, a := range pa.Build(wire.Options{}) {
+		out = append(out, a.Type)
+	}
+	return out
+}
+
+// RandOrder draws an attribute order for u: "" (ascending), "mp-first" (RFC 7606 section 5.1: the MP
+// attributes lead, in either order), "mp-last" (behind everything else, in either order), "reverse"
+// or "shuffle"; it returns the order and its label.
+func RandOrder(rng *rand.Rand, u UpdSpec) ([]uint8, string) {
+	ts := u.AttrTypes()
+	if len(ts) < 2 {
+		return nil, "ascending"
+	}
+	var mp, rest []uint8
+	for _, t := range ts {
+		if t == wire.AttrMPReach || t == wire.AttrMPUnreach {
+			mp = append(mp, t)
+		} else {
+			rest = append(rest, t)
+		}
+	}
+	if len(mp) == 2 && rng.IntN(2) == 0 {
+		mp[0], mp[1] = mp[1], mp[0]
+	}
+	switch rng.IntN(5) {
+	case 0:
+		if len(mp) > 0 {
+			return append(mp, rest...), "mp-first"
+		}
+	case 1:
+		if len(mp) > 0 {
+			return append(rest, mp...), "mp-last"
+		}
+	case 2:
+		out := make([]uint8, len(ts))
+		for i, t := range ts {
+			out[len(ts)-1-i] = t
+		}
+		return out, "reverse"
+	case 3:
+		out := append([]uint8(nil), ts...)
+		rng.Shuffle(len(out), func(i, j int) { out[i], out[j] = out[j], out[i] })
+		return out, "shuffle"
+	}
+	return nil, "ascending"
 }
 
 // Describe renders u in one line.
